@@ -167,4 +167,14 @@ theorem C14_source_skeletons :
     Gen.Skel.Store_restoreDBFromBackup = Expected.Skel.Store_restoreDBFromBackup :=
   ⟨rfl, rfl⟩
 
+/-- further regenerated control skeletons (see Model/ExpectedSkel.lean): Store_streamBackup, Store_streamBackupDBSnapshot, FileBackupClient_PosMap, FileBackupClient_pos, FileBackupClient_WriteTx, FileBackupClient_FetchSnapshot -/
+theorem C14_source_skeletons_2 :
+    Gen.Skel.Store_streamBackup = Expected.Skel.Store_streamBackup ∧
+    Gen.Skel.Store_streamBackupDBSnapshot = Expected.Skel.Store_streamBackupDBSnapshot ∧
+    Gen.Skel.FileBackupClient_PosMap = Expected.Skel.FileBackupClient_PosMap ∧
+    Gen.Skel.FileBackupClient_pos = Expected.Skel.FileBackupClient_pos ∧
+    Gen.Skel.FileBackupClient_WriteTx = Expected.Skel.FileBackupClient_WriteTx ∧
+    Gen.Skel.FileBackupClient_FetchSnapshot = Expected.Skel.FileBackupClient_FetchSnapshot :=
+  ⟨rfl, rfl, rfl, rfl, rfl, rfl⟩
+
 end LiteFSVerif.C14
